@@ -451,7 +451,7 @@ func (c *Ctx) Run(steps []string) []string {
 	for _, s := range steps {
 		r := c.Step(s)
 		c.w.flushCrashNote()
-		c.w.note(Obs{Kind: "step", A: map[string]string{"s": s, "r": r, "state": c.state()}})
+		c.w.note(Obs{Kind: "step", A: map[string]string{"s": s, "r": r, "state": c.state(), "btc": fmt.Sprint(c.w.btc.height), "lbtc": fmt.Sprint(c.w.lbtc.height)}})
 		out = append(out, r)
 	}
 	return out
